@@ -115,6 +115,12 @@ func expand(reg *registry.Registry, t *Transaction, accrual *syntax.Accrual) ([]
 			Wrapped: err,
 		}
 	}
+	if end.Before(start) {
+		return nil, syntax.Error{
+			Message: "accrual period ends before it starts",
+			Range:   accrual.Range,
+		}
+	}
 	var result []*Transaction
 	for _, p := range t.Postings {
 		if !p.Account.IsIE() {
